@@ -27,7 +27,7 @@ class C18(object):
     exhaustive = {'thorough': True}
 
     def gen(self, rng, tier):
-        n_cases = 90 if tier == 'quick' else 1200
+        n_cases = 90 if tier == 'quick' else 8000
         if tier == 'thorough':
             for n in (2, 3):
                 base = gen.rand_dist_case(rng, nmin=n, nmax=n, amax=2, bases=['linear'], allow_space=False, max_support=8,
